@@ -38,7 +38,7 @@ def cases(draw):
     kind = draw(st.sampled_from(["segy3d", "segy3d", "numpy", "2d"]))
     c = {"kind": kind, "values": draw(gen.values_spec), "fmt": draw(st.sampled_from([1, 5])),
          "reader": draw(st.sampled_from(["segyio", "reduced"])), "pert": draw(st.sampled_from(["first", "last", "interior", "lastsample", "edge"])),
-         "u": [draw(st.floats(0, 1, exclude_max=True)) for _ in range(3)]}
+         "u": [draw(st.floats(0, 1, exclude_max=True)) for _ in range(3)], "reuse": draw(st.sampled_from([False, False, True]))}
     if kind == "2d":
         s1 = draw(st.sampled_from([s for s in gen.SETTINGS_2D if s[0] >= 1]))
         s2 = draw(st.sampled_from([s for s in gen.SETTINGS_2D if s[0] >= 1]))
@@ -56,10 +56,10 @@ def cases(draw):
     return c
 
 
-def convert(case, data, out, setting, d, tag):
+def convert(case, data, out, setting, d, tag, earlier=()):
     rate, bs = setting[0], tuple(setting[1])
     if case["kind"] == "numpy":
-        conv.numpy_convert(data, out, rate, bs)
+        conv.numpy_convert(data, out, rate, bs, earlier=earlier)
         return data
     path = os.path.join(d, f"in{tag}.sgy")
     if case["kind"] == "2d":
@@ -82,7 +82,7 @@ def convert(case, data, out, setting, d, tag):
         sgy.write_segy(path, data.reshape(-1, ns), cols, 4000, fmt=case["fmt"], grid=(il, xl))
         src = sgy.read_source(path)["traces"]
     conv.segy_convert(path, out, rate, bs, reduce_iops=(case["reader"] == "reduced" and case["kind"] != "2d"),
-                      header_detection="strip")
+                      header_detection="strip", earlier=earlier)
     return src
 
 
@@ -97,10 +97,18 @@ def run_case(case, ctx):
     if h1 != want:
         raise Violation("hash-not-sha1-of-source", f"{case['kind']} shape {shape} setting {case['s1']}: {h1} != {want}")
     o2 = os.path.join(d, "b.sgz")
-    convert(case, data, o2, case["s2"], d, "b")
+    if case.get("reuse"):
+        # one converter object writing several files: every one of them carries the hash of the source
+        o2a = os.path.join(d, "b0.sgz")
+        convert(case, data, o2, case["s2"], d, "b", earlier=[(o2a, case["s1"][0], tuple(case["s1"][1]))])
+        if get_hash(o2a) != want:
+            raise Violation("hash-not-sha1-of-source", f"first file of a reused converter: {get_hash(o2a)} != {want}")
+    else:
+        convert(case, data, o2, case["s2"], d, "b")
     h2 = get_hash(o2)
     if h2 != want:
-        raise Violation("hash-depends-on-setting", f"setting {case['s2']} gives {h2}, setting {case['s1']} gives {h1}")
+        raise Violation("hash-depends-on-setting" + (":reused-converter" if case.get("reuse") else ""),
+                        f"setting {case['s2']} gives {h2}, setting {case['s1']} gives {h1}")
     # one perturbed sample
     p = data.copy()
     flat = p.reshape(-1, shape[-1])
@@ -133,7 +141,7 @@ def run_case(case, ctx):
     n = shape[0]
     nontriv = n % bs[k] != 0 or n > bs[k]
     return {"sig": [case["kind"], gen.dim_class(n, bs[k]), n % 4, case["s1"], case["reader"], case["fmt"], case["pert"]] if nontriv else None,
-            "labels": [case["kind"], "groups>1" if n > bs[k] else "one-group", case["pert"]]}
+            "labels": [case["kind"], "groups>1" if n > bs[k] else "one-group", case["pert"]] + (["reused-converter"] if case.get("reuse") else [])}
 
 
 def shard_main(ctx):
